@@ -254,6 +254,17 @@ func armAnalysis(w *World, r *Roles) *Arms {
 						seenPred[iff] = true
 						ar.Preds = append(ar.Preds, armPred{iff, l, s})
 					}
+				} else if k == 1 {
+					// the false edge of "kind == X": paths already known to be of kind X do not take it
+					if lx := ar.edgeLabel(iff, 0); strings.HasPrefix(lx, "Query/") {
+						pruned := map[armLab]bool{}
+						for l := range out {
+							if l.name != lx {
+								pruned[l] = true
+							}
+						}
+						out = pruned
+					}
 				}
 			}
 			if add(s, b, out) {
@@ -388,4 +399,26 @@ func reachesAvoidingP(from, target *ssa.BasicBlock, stop func(*ssa.BasicBlock) b
 		}
 	}
 	return false
+}
+
+
+// armCut: edges a path of the given arm cannot take - at a test "kind == Y" a path of arm Query/X goes the true way iff X is Y.
+func (ar *Arms) armCut(arm string) func(pred, b *ssa.BasicBlock, k int) bool {
+	return func(_, b *ssa.BasicBlock, k int) bool {
+		if !strings.HasPrefix(arm, "Query/") {
+			return false
+		}
+		iff, ok := lastInstr(b).(*ssa.If)
+		if !ok {
+			return false
+		}
+		ly := ar.edgeLabel(iff, 0)
+		if !strings.HasPrefix(ly, "Query/") {
+			return false
+		}
+		if ly == arm {
+			return k == 1
+		}
+		return k == 0
+	}
 }
